@@ -1,4 +1,4 @@
-import Sentinel.Lemmas.Chain
+import Sentinel.Lemmas.ChainSim
 /-!
 # C16 — Slot chain runs in order, short-circuits on first block, and fails open
 (property theorems only; helper lemmas live in `Sentinel/Lemmas/Chain.lean`)
@@ -346,5 +346,75 @@ theorem default_order_out :
 theorem default_rule_orders_strict :
     (defaultRuleIns.map (·.2)).Pairwise (· < ·) ∧ (defaultStatIns.map (·.2)).Pairwise (· < ·) := by
   decide
+
+
+/-! ## 8. the model refines the reference over whole op histories
+
+`Sim` (in `Sentinel/Lemmas/ChainSim.lean`) is the simulation relation between the pooled model state and the reference
+state: same chains up to the addresses of slot-owned results, entries paired by name with equal chain / exited / blocked
+flags, equal exit handlers unless `Entry` panicked, every caller-held block error still holding the reference's value,
+pool and live contexts pairwise distinct, contexts ↦ results injective as long as no slot owns a shared result, and every
+pooled result still marked blocked belongs to a live entry admitted by a panic after a block.  The *own-result-hazard
+region* of an `exit e` is the decidable predicate `SState.hazard s' e` (a `Bool` computed from the reference state: some
+rule slot of the case reuses one result object **and** another admitted, not yet exited entry panicked after a block);
+inside it, or when `e`'s own `Entry` / `Exit` panics, the reference answers `?` for the call log and nothing is claimed. -/
+
+theorem sstep_exit_out (s' : SState) (e : String) :
+    (sstep s' (.exit e)).2 = .ok ∨ (sstep s' (.exit e)).2 = .bad := by
+  simp only [sstep]
+  cases s'.findEntry e with
+  | none => simp
+  | some r =>
+    dsimp only
+    by_cases h1 : r.verdict.isSome = true
+    · simp [h1]
+    · by_cases h2 : r.exited = true
+      · simp [h1, h2]
+      · simp only [h1, h2, Bool.false_eq_true, if_false]
+        cases s'.findChain r.chain <;> simp
+
+/-- every reachable pair of states is in the simulation relation -/
+theorem reachable_sim (pre : List Op) : Sim (runOps {} pre) (srunOps {} pre) :=
+  (run_sim pre init_sim).1
+
+/-- `exit`, for every reachable state: the model's answer is the reference's answer, whenever the reference claims a call
+    log (i.e. outside the hazard region and absent panics of this entry) the model produces exactly that log, and the
+    successor states are again related (so the state change — exited flag, context back in the pool, result reset — is
+    the reference's) -/
+theorem exit_matches_reference (pre : List Op) (e : String) :
+    (stepExit (runOps {} pre) e).2 = (sstep (srunOps {} pre) (.exit e)).2 ∧
+    (∀ l, (sstep (srunOps {} pre) (.exit e)).1.lastLog = some l → (stepExit (runOps {} pre) e).1.lastLog = l) ∧
+    Sim (stepExit (runOps {} pre) e).1 (sstep (srunOps {} pre) (.exit e)).1 := by
+  obtain ⟨x1, o1⟩ := step_sim (reachable_sim pre) (.exit e)
+  simp only [step] at x1 o1
+  refine ⟨?_, x1.log, x1⟩
+  rcases o1 with h | h
+  · rcases sstep_exit_out (srunOps {} pre) e with h' | h' <;> rw [h'] at h <;> simp at h
+  · exact h
+
+/-- the complement of the hazard region, spelled out: in any reachable state, for an admitted, not yet exited entry whose
+    `Entry` raised no panic, outside `hazard` and with no panicking exit handler / `OnCompleted`, the first `Exit` runs the
+    handlers in registration order and then tells every statistic slot (stable sort of the chain's insertion history at
+    that moment) of completion, once each -/
+theorem exit_log_outside_hazard (pre : List Op) (e : String) (r : SEntry) (ins : List SlotSpec)
+    (hr : (srunOps {} pre).findEntry e = some r) (hv : r.verdict = none) (hx : r.exited = false)
+    (hnp : r.panicked = false) (hz : (srunOps {} pre).hazard e = false)
+    (hc : (srunOps {} pre).findChain r.chain = some ins) (hk : hooksPanic r.hooks = false)
+    (hs : (specChain ins).ss.any (fun x => x.beh = .pCompleted) = false) :
+    (stepExit (runOps {} pre) e).1.lastLog =
+      r.hooks.map (fun x => Call.handler x.1) ++ (specChain ins).ss.map (fun x => Call.completed x.id) := by
+  apply (exit_matches_reference pre e).2.1
+  simp [sstep, hr, hv, hx, hc, hnp, hz, specExitLog, hk, hs, SState.setEntry]
+
+/-- **refinement over whole histories**: for every op sequence, answer by answer, the pooled model (the one tied to the code
+    by the correspondence run) says what the reference says wherever the reference makes a claim (`OutRel m r` is
+    `r = ? ∨ m = r`), and the final states are related -/
+theorem run_matches_reference (ops : List Op) :
+    List.Forall₂ OutRel (runOuts {} ops) (srunOuts {} ops) ∧ Sim (runOps {} ops) (srunOps {} ops) :=
+  ⟨(run_sim ops init_sim).2, (run_sim ops init_sim).1⟩
+
+example : ∃ s' : SState, s'.hazard "e1" = true :=
+  ⟨{ chains := [("A", [.r { id := 1, order := 0, beh := .block .own 3 }])],
+     entries := [{ name := "e2", chain := "A", blockPanic := true, panicked := true }] }, by decide⟩
 
 end Sentinel.C16
